@@ -23,8 +23,10 @@ import subprocess
 import sys
 import time
 
-NS = "/tmp/ns"
+NS = os.environ.get("PAR_NS", "/tmp/ns")
 VERIF = "/verif"
+# source of the private /verif copies (a frozen copy lets /verif be edited while a batch runs)
+VERIF_SRC = os.environ.get("PAR_VERIF_SRC", VERIF)
 
 
 def sh(cmd, **kw):
@@ -57,7 +59,7 @@ def run_job(slot, spec):
     rc, o = sh(["rsync", "-a", "--delete", "--exclude", "/target", "/repo/", repo + "/"])
     if rc != 0:
         return [{"spec": label, "error": "rsync repo: " + o[-300:]}]
-    rc, o = sh(["rsync", "-a", "--delete", "--exclude", "/.git", "--exclude", "/.build/fuzzwork", "--exclude", "/.build/fztest", "--exclude", "/.build/t/fuzz_*", VERIF + "/", verif + "/"])
+    rc, o = sh(["rsync", "-a", "--delete", "--exclude", "/.git", "--exclude", "/.build/fuzzwork", "--exclude", "/.build/fztest", "--exclude", "/.build/t/fuzz_*", "--exclude", "/.build/t/miri*", VERIF_SRC + "/", verif + "/"])
     if rc != 0:
         return [{"spec": label, "error": "rsync verif: " + o[-300:]}]
     rc, o = sh(["git", "apply", diff], cwd=repo)
